@@ -368,6 +368,10 @@ fn e2e_crlf_case(prop: &str, idx: u64, tmproot: &std::path::Path) -> CaseRec {
     // where the observed test case comes from: 0 the document itself, 1 a document given with -P, 2 a document
     // named by the front-matter `append:` of a (trivial) main document: the command-line layer applies to all of them
     let via = take(3);
+    // a Markdown document run with --cram-compat: the FORMAT default becomes Cram's, the flag sets no layer of its own
+    // (only with the observed test case in its own document: the one-script executor of Cram compatibility refuses
+    // documents whose test cases differ in keep_crlf, "inconsistent configuration value", which is an error, not a precedence)
+    let compat = take(2) == 1 && !cram && via == 0;
     let dir = tmproot.join(format!("crlf-{idx}"));
     let _ = std::fs::remove_dir_all(&dir);
     std::fs::create_dir_all(dir.join("tmp")).unwrap();
@@ -386,6 +390,9 @@ fn e2e_crlf_case(prop: &str, idx: u64, tmproot: &std::path::Path) -> CaseRec {
     std::fs::write(&p, doc).unwrap();
     let mut cmd = std::process::Command::new(scrut_bin());
     cmd.arg("test").arg("-r").arg("json");
+    if compat {
+        cmd.arg("--cram-compat");
+    }
     if cli == 1 {
         cmd.arg("--keep-output-crlf");
     } else if cli == 2 {
@@ -423,7 +430,7 @@ fn e2e_crlf_case(prop: &str, idx: u64, tmproot: &std::path::Path) -> CaseRec {
         (0, 2, _) => false,
         (0, 0, 1) => true,
         (0, 0, 2) => false,
-        _ => cram, // format default
+        _ => cram || compat, // format default
     };
     let observed = match recorded.as_deref() {
         Some("a\r\n") => "1",
@@ -433,7 +440,7 @@ fn e2e_crlf_case(prop: &str, idx: u64, tmproot: &std::path::Path) -> CaseRec {
     if observed == "?" {
         fails.push(("C16:e2e-no-json".into(), format!("exit {:?}, recorded stdout {:?}: {}", out.status.code(), recorded, String::from_utf8_lossy(&out.stderr).chars().take(300).collect::<String>())));
     } else if (observed == "1") != want_keep {
-        fails.push(("C16:keep-crlf-precedence-e2e".into(), format!("recorded {:?}: keep_crlf in effect is {}, expected {} (cli={cli} inline={inline} defaults={defaults} format={} via={})", recorded, observed == "1", want_keep, if cram { "cram" } else { "markdown" }, ["own document", "-P", "front-matter append"][via as usize])));
+        fails.push(("C16:keep-crlf-precedence-e2e".into(), format!("recorded {:?}: keep_crlf in effect is {}, expected {} (cli={cli} inline={inline} defaults={defaults} format={} via={})", recorded, observed == "1", want_keep, if cram { "cram" } else if compat { "markdown under --cram-compat" } else { "markdown" }, ["own document", "-P", "front-matter append"][via as usize])));
     }
     let _ = std::fs::remove_dir_all(&dir);
     // model: slot 1 = keep_crlf (1 true, 2 false); format default: Markdown false, Cram true
@@ -443,14 +450,88 @@ fn e2e_crlf_case(prop: &str, idx: u64, tmproot: &std::path::Path) -> CaseRec {
         a
     };
     let mut fmt = A::default();
-    fmt.s[1] = if cram { 1 } else { 2 };
-    fmt.s[2] = if cram { 3 } else { 1 };
+    fmt.s[1] = if cram || compat { 1 } else { 2 };
+    fmt.s[2] = if cram || compat { 3 } else { 1 };
     CaseRec {
         op: format!("effective {} {} {} {} -", mk(cli).field(), mk(inline).field(), mk(defaults).field(), fmt.field()),
-        impl_out: format!("-,{},{},-,-,-,-,-", observed, if cram { "3" } else { "1" }),
+        impl_out: format!("-,{},{},-,-,-,-,-", observed, if cram || compat { "3" } else { "1" }),
         oracle_fail: keep(prop, fails),
         nontrivial: true,
-        tags: vec!["e2e-crlf".into(), format!("e2e-crlf:format={}", if cram { "cram" } else { "md" }), format!("e2e-crlf:via={via}")],
+        tags: vec!["e2e-crlf".into(), format!("e2e-crlf:format={}", if cram { "cram" } else { "md" }), format!("e2e-crlf:via={via}"), format!("e2e-crlf:compat={compat}")],
+    }
+}
+
+/// `output_stream` end to end: command line (unset / --combine-output / --no-combine-output) x --cram-compat x inline
+/// x document defaults, each of the latter two in {unset, stdout, stderr, combined}. Three test cases with the same
+/// configuration tell which stream was validated: expectation `out`, `err`, `out` + `err`.
+fn e2e_stream_case(prop: &str, idx: u64, tmproot: &std::path::Path) -> CaseRec {
+    let mut r = idx;
+    let mut take = |n: u64| {
+        let v = r % n;
+        r /= n;
+        v as u8
+    };
+    // command line: 0 unset, 3 --combine-output, 1 --no-combine-output (= stdout)
+    let cli = [0u8, 3, 1][take(3) as usize];
+    let compat = take(2) == 1;
+    let inline = take(4);
+    let defaults = take(4);
+    let dir = tmproot.join(format!("stream-{idx}"));
+    let _ = std::fs::remove_dir_all(&dir);
+    std::fs::create_dir_all(dir.join("tmp")).unwrap();
+    let name = |v: u8| ["", "stdout", "stderr", "combined"][v as usize];
+    let mut doc = String::new();
+    if defaults != 0 {
+        doc.push_str(&format!("---\ndefaults: {{output_stream: {}}}\n---\n\n", name(defaults)));
+    }
+    let cfg = if inline != 0 { format!(" {{output_stream: {}}}", name(inline)) } else { String::new() };
+    for (t, exp) in [("A", "out\n"), ("B", "err\n"), ("C", "out\nerr\n")] {
+        doc.push_str(&format!("# {t}\n\n```scrut{cfg}\n$ echo out; echo err >&2\n{exp}```\n\n"));
+    }
+    let p = dir.join("doc.md");
+    std::fs::write(&p, doc).unwrap();
+    let mut cmd = std::process::Command::new(scrut_bin());
+    cmd.arg("test").arg("-r").arg("json");
+    if compat {
+        cmd.arg("--cram-compat");
+    }
+    match cli {
+        3 => { cmd.arg("--combine-output"); }
+        1 => { cmd.arg("--no-combine-output"); }
+        _ => {}
+    }
+    let out = cmd.arg(&p).current_dir(&dir).env("TMPDIR", dir.join("tmp")).output().expect("run scrut");
+    let stdout = String::from_utf8_lossy(&out.stdout).to_string();
+    let json: Option<serde_json::Value> = stdout.find('[').and_then(|p| serde_json::from_str(&stdout[p..]).ok());
+    let kinds: Vec<String> = (0..3).map(|i| json.as_ref().and_then(|j| j.pointer(&format!("/{i}/result/kind")).and_then(|v| v.as_str()).map(|s| s.to_string())).unwrap_or("?".into())).collect();
+    let observed = match kinds.iter().map(|k| k.as_str()).collect::<Vec<_>>().as_slice() {
+        ["success", "malformed_output", "malformed_output"] => 1u8,
+        ["malformed_output", "success", "malformed_output"] => 2,
+        ["malformed_output", "malformed_output", "success"] => 3,
+        _ => 0,
+    };
+    let want = [cli, inline, defaults].into_iter().find(|v| *v != 0).unwrap_or(if compat { 3 } else { 1 });
+    let mut fails = vec![];
+    if observed == 0 {
+        fails.push(("C16:e2e-no-json".into(), format!("exit {:?}, kinds {:?}: {}", out.status.code(), kinds, String::from_utf8_lossy(&out.stderr).chars().take(300).collect::<String>())));
+    } else if observed != want {
+        fails.push(("C16:output-stream-precedence-e2e".into(), format!("the stream validated is {}, expected {} (command line={} inline={} defaults={} format default={})", name(observed), name(want), ["unset", "--no-combine-output", "", "--combine-output"][cli as usize], name(inline), name(defaults), if compat { "combined (--cram-compat)" } else { "stdout" })));
+    }
+    let _ = std::fs::remove_dir_all(&dir);
+    let mk = |v: u8| {
+        let mut a = A::default();
+        a.s[2] = v;
+        a
+    };
+    let mut fmt = A::default();
+    fmt.s[1] = if compat { 1 } else { 2 };
+    fmt.s[2] = if compat { 3 } else { 1 };
+    CaseRec {
+        op: format!("effective {} {} {} {} -", mk(cli).field(), mk(inline).field(), mk(defaults).field(), fmt.field()),
+        impl_out: format!("-,{},{},-,-,-,-,-", if compat { "1" } else { "2" }, observed),
+        oracle_fail: keep(prop, fails),
+        nontrivial: true,
+        tags: vec!["e2e-stream".into(), format!("e2e-stream:compat={compat}"), format!("e2e-stream:cli={cli}")],
     }
 }
 
@@ -533,7 +614,9 @@ pub fn run(ctx: &Ctx, prop: &str) {
     ctx.run_stream("e2e-effective-exhaustive", 108, true, |idx| Some(e2e_case(prop, idx, &tr)));
     // 6. keep_crlf from all four layers: cli x format x (inline x defaults for Markdown) x origin of the test case (own / -P / front-matter append) = 3 * 2 * 9 * 3 indices (Cram ignores inline and defaults)
     let tr = tmproot.clone();
-    ctx.run_stream("e2e-keep-crlf-exhaustive", 54 * 3, true, |idx| Some(e2e_crlf_case(prop, idx, &tr)));
+    ctx.run_stream("e2e-keep-crlf-exhaustive", 54 * 3 * 2, true, |idx| Some(e2e_crlf_case(prop, idx, &tr)));
+    let tr = tmproot.clone();
+    ctx.run_stream("e2e-output-stream-exhaustive", 3 * 2 * 4 * 4, true, |idx| Some(e2e_stream_case(prop, idx, &tr)));
     let _ = std::fs::remove_dir_all(&tmproot);
 }
 
